@@ -78,6 +78,11 @@ def _quals(rng, n):
     return [rng.choice([15, 30]) for _ in range(n)]
 
 
+def _pfx(case, sample, what="names"):
+    """prefix that makes read names / barcodes sample specific — empty when the case shares them between samples"""
+    return "" if case.get("shared_" + what) else str(sample)
+
+
 def gen_reads(rng, case, sample, chrom, n, rgs_of_sample):
     ref = case["ref"][chrom]
     vs = case["variants"][chrom]
@@ -88,7 +93,7 @@ def gen_reads(rng, case, sample, chrom, n, rgs_of_sample):
     L = len(ref)
     out = []
     for k in range(n):
-        name = f"{sample}_{chrom}_r{k}"
+        name = f"{_pfx(case, sample)}_{chrom}_r{k}"
         h = rng.randrange(ploidy)
         alleles = list(haps[h])
         if vs and rng.random() < 0.3:            # chimeric read: switches to another haplotype
@@ -184,7 +189,7 @@ def bx_trap(rng, case, sample, chrom, rgs_of_sample, d):
         return []
     out = []
     rg = rng.choice(rgs_of_sample) if rgs_of_sample else None
-    bx = f"BX{sample}-{chrom}trap"
+    bx = f"BX{_pfx(case, sample, 'bx')}-{chrom}trap"
 
     def mk(tag, segs, alle, q):
         seq, cig = "", []
@@ -194,7 +199,7 @@ def bx_trap(rng, case, sample, chrom, rgs_of_sample, d):
                 cig.append(("N", x - segs[k - 1][1]))
             seq += sq
             cig += cg
-        return dict(name=f"{sample}_{chrom}_trap{tag}", chrom=chrom, start=segs[0][0], cigar=[list(z) for z in cig], seq=seq,
+        return dict(name=f"{_pfx(case, sample)}_{chrom}_trap{tag}", chrom=chrom, start=segs[0][0], cigar=[list(z) for z in cig], seq=seq,
                     quals=[q] * len(seq), flag=0, mapq=60, rg=rg, tags=[["BX", bx]], sample=sample)
     try:
         out.append(mk("A", [(a_s, a_e)], hap(h), 40))
@@ -263,7 +268,7 @@ def decorate(rng, case, alns):
                         far = [x for x in far if all(abs(x - y) >= 3 * d for y in centers)]
                     for a in free:
                         if any(abs(a["start"] - x) <= d // 2 for x in centers) and rng.random() < 0.9:
-                            a["tags"].append(["BX", f"BX{s}-{c}{k}"])
+                            a["tags"].append(["BX", f"BX{_pfx(case, s, 'bx')}-{c}{k}"])
         # records that share the name of a barcoded read (secondary / supplementary) mostly carry it too
         named = {(a["sample"], a["name"]): t[1] for a in alns for t in a["tags"] if t[0] == "BX"}
         for a in alns:
@@ -273,7 +278,7 @@ def decorate(rng, case, alns):
         # a few barcoded records that cover no variant (placed-unmapped ones): BX fall back
         for a in alns:
             if a["flag"] & 0x4 and not any(t[0] == "BX" for t in a["tags"]) and rng.random() < 0.3:
-                a["tags"].append(["BX", f"BX{a['sample']}-{a['chrom']}0"])
+                a["tags"].append(["BX", f"BX{_pfx(case, a['sample'], 'bx')}-{a['chrom']}0"])
     elif case["bx"]:
         for s, lst in by_sample.items():
             nbar = rng.randint(1, 3)
@@ -281,7 +286,7 @@ def decorate(rng, case, alns):
             bar = {}
             for nme in names:
                 if rng.random() < 0.55:
-                    bar[nme] = f"BX{s}-{rng.randrange(nbar)}"
+                    bar[nme] = f"BX{_pfx(case, s, 'bx')}-{rng.randrange(nbar)}"
             for a in lst:
                 if a["name"] in bar and rng.random() < 0.95:
                     a["tags"].append(["BX", bar[a["name"]]])
@@ -382,8 +387,9 @@ def _multi_gt(rng, ploidy, nalt=2):
     return {"gt": g, "ps": rng.randint(1, 9) * 7}
 
 
-def gen_case(rng, region_kind=None, big=False, special=None):
-    """special: None (random) | "unmapped-only-last" | "unmapped-only-middle" | "none"."""
+def gen_case(rng, region_kind=None, big=False, special=None, shared=None):
+    """special: None (random) | "unmapped-only-last" | "unmapped-only-middle" | "none".
+    shared: None (random) | True: at least two samples in the BAM whose reads share names and barcodes."""
     ploidy = rng.choice([2, 2, 2, 3, 4])
     nchrom = rng.choice([1, 2, 2, 3])
     chroms = ["chrA", "chrB", "chrC"][:nchrom]
@@ -402,12 +408,19 @@ def gen_case(rng, region_kind=None, big=False, special=None):
     # prefixes / sort against their position
     pool = rng.choice([["S1", "S2", "S3"], ["S1", "S2", "S3"], ["zeta", "Alpha", "mid-1"], ["S10", "S1", "S1a"],
                        ["b", "B", "a"], ["NA12878", "NA12", "child"]])
-    samples = pool[:rng.choice([1, 1, 2, 3])]
+    samples = pool[:rng.choice([2, 3] if shared else [1, 1, 2, 3])]
     cutoff = rng.choice([None, 0, 10, 25, 40, 40, 150, 400, 50000])
     case = {"ploidy": ploidy, "chroms": chroms, "samples": samples, "ref": {}, "variants": {}, "calls": {},
             "bx": rng.random() < 0.65, "normal_chroms": normal, "cutoff_hint": cutoff,
             "bx_mode": rng.choice(["random", "clustered", "clustered"]),
             "phase_tag": "HP" if rng.random() < 0.15 else "PS"}
+    if shared is None:
+        shared = len(samples) > 1 and rng.random() < 0.2
+    # read names / barcodes shared between the samples of the BAM (the tool files decisions per sample)
+    case["shared_names"] = bool(shared) and (shared is True or rng.random() < 0.85)
+    case["shared_bx"] = bool(shared) and rng.random() < 0.7
+    if shared:
+        case["bx"] = case["bx"] or rng.random() < 0.7
     for c in chroms:
         nv = 0 if rng.random() < 0.08 else rng.randint(3, 12 if big else 9)
         L = 300 + nv * rng.randint(60, 110)
@@ -447,7 +460,7 @@ def gen_case(rng, region_kind=None, big=False, special=None):
     # read groups
     ignore_rg = rng.random() < 0.2
     bam_samples = list(samples)
-    if rng.random() < 0.15 and not ignore_rg:
+    if rng.random() < 0.15 and not ignore_rg and not shared:
         bam_samples = bam_samples[:-1] or bam_samples       # a VCF sample without reads
     rgs = []
     rgs_of = {}
@@ -493,7 +506,7 @@ def gen_case(rng, region_kind=None, big=False, special=None):
             seq = synth.random_seq(rng, rng.randint(15, 40))
             st = rng.randint(0, LU - 2)
             paired = rng.random() < 0.6      # unmapped mate of a (filtered) mapped read: mate fields point to itself
-            u = dict(name=f"{sm}_chrU_um{k}", chrom="chrU", start=st, cigar=[], seq=seq, quals=[30] * len(seq),
+            u = dict(name=f"{_pfx(case, sm)}_chrU_um{k}", chrom="chrU", start=st, cigar=[], seq=seq, quals=[30] * len(seq),
                      flag=(0x1 | 0x4 | rng.choice([0x40, 0x80])) if paired else 0x4, mapq=0,
                      rg=(rgs_of.get(sm) or [None])[0], tags=[], sample=sm)
             if paired:
@@ -501,7 +514,7 @@ def gen_case(rng, region_kind=None, big=False, special=None):
             if rng.random() < 0.4:
                 u["tags"] += [["HP", rng.randint(1, 2)], ["PS", rng.randint(1, 999)]]
             if case["bx"] and rng.random() < 0.4:
-                u["tags"].append(["BX", f"BX{sm}-0"])
+                u["tags"].append(["BX", f"BX{_pfx(case, sm, 'bx')}-0"])
             alns.append(u)
     tail = []
     for k in range(rng.choice([0, 0, 1, 3])):
@@ -510,7 +523,7 @@ def gen_case(rng, region_kind=None, big=False, special=None):
         if rng.random() < 0.4:
             t["tags"] += [["HP", rng.randint(1, 2)], ["PS", rng.randint(1, 999)]]
         if rng.random() < 0.3:
-            t["tags"].append(["BX", f"BX{s}-0"])
+            t["tags"].append(["BX", f"BX{_pfx(case, s, 'bx')}-0"])
         tail.append(t)
     case["rgs"], case["alns"], case["tail"] = rgs, alns, tail
     # options
